@@ -89,6 +89,32 @@ def write_evidence(prop: str, tier: str, seed: int, level: str, coverage: dict,
     return p
 
 
+def _rank(f: dict):
+    return (len(f["replay"].get("history", [])), json.dumps(f["replay"], sort_keys=True, default=repr))
+
+
+def compact(failures: list[dict]) -> list[dict]:
+    """One record per signature: the smallest example, with the number of occurrences in 'count'.
+    (A violated property can fail on millions of evaluations; workers and the parent keep this form.)"""
+    best: dict[str, dict] = {}
+    for f in failures:
+        sig = f["signature"]
+        n = f.get("count", 1)
+        b = best.get(sig)
+        if b is None:
+            g = dict(f)
+            g["count"] = n
+            best[sig] = g
+        else:
+            total = b["count"] + n
+            if _rank(f) < _rank(b):
+                g = dict(f)
+                best[sig] = g
+                b = g
+            b["count"] = total
+    return list(best.values())
+
+
 def conclude(prop: str, tier: str, vseed: int, failures: list[dict], coverage: dict,
              assumptions: list[str], t0: float, errors: list | None = None,
              level: str = "model_checking") -> int:
@@ -106,17 +132,18 @@ def conclude(prop: str, tier: str, vseed: int, failures: list[dict], coverage: d
         items = by_sig[sig]
         e = match_known(known, sig)
         if e is not None:
-            known_hit[e["id"]] = known_hit.get(e["id"], 0) + len(items)
+            known_hit[e["id"]] = known_hit.get(e["id"], 0) + sum(f.get("count", 1) for f in items)
             continue
         violations += 1
-        first = min(items, key=lambda f: (len(f["replay"].get("history", [])), json.dumps(f["replay"], sort_keys=True, default=repr)))
+        first = min(items, key=_rank)
+        nocc = sum(f.get("count", 1) for f in items)
         payload = dict(first["replay"])
         payload["property"] = prop
         payload["signature"] = sig
-        payload["occurrences"] = len(items)
+        payload["occurrences"] = nocc
         path = write_replay(prop, payload)
         lines.append(f"VIOLATION property={prop} replay={path}")
-        print(f"  signature: {sig}\n  occurrences: {len(items)}\n  oracle: {payload.get('oracle')}\n  expected: {str(payload.get('expected'))[:300]}\n  actual:   {str(payload.get('actual'))[:300]}")
+        print(f"  signature: {sig}\n  occurrences: {nocc}\n  oracle: {payload.get('oracle')}\n  expected: {str(payload.get('expected'))[:300]}\n  actual:   {str(payload.get('actual'))[:300]}")
     for e in known:
         if e.get("status") == "open" and e["id"] in known_hit:
             print(f"KNOWN-FINDING: property={prop} {e['id']} {e['what']} (hit {known_hit[e['id']]}x)")
